@@ -96,7 +96,7 @@ func (g *stgen) popProb(depth int) int { // out of 100
 		return 0
 	}
 	if g.o.FillAll {
-		return []int{55, 22, 8, 3}[min(depth, 3)]
+		return []int{35, 9, 4, 2}[min(depth, 3)]
 	}
 	return []int{14, 9, 5, 2}[min(depth, 3)]
 }
